@@ -74,6 +74,12 @@ def rewrite_auth(src):
     body = src[i:j]
     if "am.db.Query(" not in body or "rows.Scan(" not in body:
         raise Exception("VerifyToken: db.Query/rows.Scan shape changed")
+    # on the cache-hit path: right after the read lock is released inside the hit branch (before anything
+    # the branch does afterwards, and before its return)
+    ms = list(re.finditer(r"^\t\tam\.cacheMu\.RUnlock\(\)\n", body, re.M))
+    if len(ms) != 1:
+        raise Exception("schedule point v.hit: expected exactly one two-tab RUnlock (hit branch), found %d" % len(ms))
+    body = body[:ms[0].end()] + '\t\tverifsched.Point("v.hit")\n' + body[ms[0].end():]
     # after the cache miss: after the last one-tab RUnlock (the miss path)
     body = _insert_after_last(body, r"^\tam\.cacheMu\.RUnlock\(\)\n", "v.miss", "miss-path RUnlock")
     # after the database read of a candidate row, before the hash check
@@ -108,10 +114,13 @@ SPEC = dict(
                 "regenerated by factgen on every run and C21_full_applies/C21_full_current re-check it by `decide` (also: InvalidateCache after every "
                 "mutator's SQL, C21_invalidation_sites); if it changes, C21_full_applies breaks and the forced-schedule harness reaches the stale-insert "
                 "schedule on the real code (C21_full_witness; seeded mutant SetMaxOpenConns(4) -> stale-auth-after-* replays). C21_partial needs no such "
-                "fact. C21_authn_iff (authenticates only if issued, enabled, not expired; sequential and concurrent) is the checked full theorem since "
+                "fact. Both also assume that the cache-HIT path does not write the cache after releasing the read lock (factgen: nothing reachable from "
+                "the hit branch takes cacheMu.Lock or assigns am.cache; part of C21_full_applies / C21_authn_applies); C21_full_touch_witness shows a "
+                "sliding-expiration re-insert there defeats the single connection, and the harness has a schedule point on the hit path (v.hit) and "
+                "enumerates warm caches past half their TTL so that such a write is reached on the real code. C21_authn_iff (authenticates only if issued, enabled, not expired; sequential and concurrent) is the checked full theorem since "
                 "/repo b9131b8: C21_authn_applies ties the expires_at re-check of the cache-hit path to the source, C21_authn_iff_current instantiates it; "
                 "C21_authn_expiry_witness is the pre-fix counterexample, C21_authn_iff_partial the configuration-independent bound. The LTS is tied to the "
-                "code by forced schedules: every interleaving of <=3 verifiers x 1 mutator over 5+1 injected schedule points (direct and cluster-apply "
+                "code by forced schedules: every interleaving of <=3 verifiers x 1 mutator over 6+1 injected schedule points (direct and cluster-apply "
                 "mode; complete in thorough except RotateToken-direct with 3 verifiers, a DFS prefix) is executed on the real AuthManager/SQLite and "
                 "replayed through the LTS, including the steps observed BLOCKED on the pooled connection."),
     technique="Lean 4 invariant proof over an interleaving LTS (n verifiers x 1 mutator); regenerated structural facts; forced-schedule trace refinement against the real AuthManager",
